@@ -313,7 +313,8 @@ const RESERVED: &[&str] = &[
 
 fn kw_case(group: &str, pos: &str, export: bool, names: &[&str]) -> Case {
     let dir = if export { "export" } else { "import" };
-    let world = if pos == "world-name" { names[0] } else { "tworld" };
+    // `%` as the test runner does (`--world %name`), so WIT keywords are accepted as world names
+    let world = if pos == "world-name" { format!("%{}", names[0]) } else { "tworld".to_string() };
     Case {
         kind: format!("{group}:{pos}:{dir}"),
         id: format!("{group}:{pos}:{dir}:{}", names.join(",")),
@@ -321,7 +322,7 @@ fn kw_case(group: &str, pos: &str, export: bool, names: &[&str]) -> Case {
             "kw.wit".into(),
             keyword_world(pos, export, names),
         )]),
-        world: Some(world.to_string()),
+        world: Some(world),
         names: names.iter().map(|s| s.to_string()).collect(),
     }
 }
@@ -684,6 +685,7 @@ fn judge(cxx: &Cxx, success: bool, stderr: &str) -> Option<String> {
 }
 
 fn snake(world: &str) -> String {
+    let world = world.trim_start_matches('%');
     // heck::ToSnakeCase on a kebab identifier (words of [a-zA-Z][a-zA-Z0-9]*): lower-case words joined by `_`.
     // Used only to *find* the generated `<world>.cpp`; if the generator names it differently we look for the single `.cpp`.
     world.replace('-', "_").to_lowercase()
